@@ -25,7 +25,7 @@ def FieldsOk (env : Env) (fvs : List (Field × Val)) : Prop :=
   ∀ fv ∈ fvs, (fv.1.ann.okC env = true ∨ fv.1.ann = .none) ∧ fv.2.wf env = true ∧ fv.2.plain = true
 /-- soundness-side guards (C01) -/
 def FieldsSound (env : Env) (fvs : List (Field × Val)) : Prop :=
-  ∀ fv ∈ fvs, fv.1.ann.noSpecial = true ∧ fv.2.wf env = true ∧ fv.2.plain = true ∧ fv.1.ann.strAnnOk env fv.2 = true
+  ∀ fv ∈ fvs, fv.1.ann.noSpecial = true ∧ fv.2.wf env = true ∧ fv.2.iterFree = true ∧ fv.1.ann.strAnnOk env fv.2 = true
 
 theorem validateTypes_none_iff (env : Env) (orc : Nat → Val → Raw) (hw : WfEnv env) :
     ∀ (fvs : List (Field × Val)), FieldsOk env fvs → (validateTypes env orc fvs = none ↔ allConform env fvs = true) := by
